@@ -17,9 +17,12 @@ import (
 type Env struct {
 	vals  map[ssa.Value]ssa.Value // phi / alloc / freevar cell -> value on this path
 	flags map[string]bool
+	nils  map[ssa.Value]bool // value -> known nil (true) / known non-nil (false) from a test taken on this path
 }
 
-func newEnv() *Env { return &Env{vals: map[ssa.Value]ssa.Value{}, flags: map[string]bool{}} }
+func newEnv() *Env {
+	return &Env{vals: map[ssa.Value]ssa.Value{}, flags: map[string]bool{}, nils: map[ssa.Value]bool{}}
+}
 
 func (e *Env) clone() *Env {
 	n := newEnv()
@@ -29,6 +32,9 @@ func (e *Env) clone() *Env {
 	for k, v := range e.flags {
 		n.flags[k] = v
 	}
+	for k, v := range e.nils {
+		n.nils[k] = v
+	}
 	return n
 }
 
@@ -36,6 +42,9 @@ func (e *Env) sig() string {
 	var parts []string
 	for k, v := range e.vals {
 		parts = append(parts, fmt.Sprintf("%p=%p", k, v))
+	}
+	for k, v := range e.nils {
+		parts = append(parts, fmt.Sprintf("nil(%p)=%v", k, v))
 	}
 	for k, v := range e.flags {
 		if v {
@@ -172,6 +181,10 @@ func (w *Walker) walk(b *ssa.BasicBlock, i int, env *Env, trail []*ssa.BasicBloc
 		if _, isPhi := in.(*ssa.Phi); isPhi {
 			continue // resolved on edge entry
 		}
+		// a value computed again (next loop iteration) is a new value
+		if v, ok := in.(ssa.Value); ok && len(env.nils) > 0 {
+			delete(env.nils, v)
+		}
 		// track stores to local cells
 		if st, ok := in.(*ssa.Store); ok {
 			switch st.Addr.(type) {
@@ -206,6 +219,15 @@ func (w *Walker) walk(b *ssa.BasicBlock, i int, env *Env, trail []*ssa.BasicBloc
 			continue
 		}
 		ne := env.clone()
+		// remember what the arm taken says about a nil-tested value (`if err != nil`): a later
+		// test of the same value on this path has only one feasible arm
+		if ifi, ok := last.(*ssa.If); ok && len(b.Succs) == 2 && b.Succs[0] != b.Succs[1] {
+			if x, trueMeansNil, isNil := nilTest(ifi.Cond); isNil {
+				if rx := env.Resolve(x); nilState(rx) == -1 {
+					ne.nils[rx] = (k == 0) == trueMeansNil
+				}
+			}
+		}
 		if w.OnEdge != nil && w.OnEdge(ne, b, s, k) {
 			continue
 		}
@@ -314,7 +336,17 @@ func envDecide(env *Env, cond ssa.Value) (val, known bool) {
 	default:
 		return false, false
 	}
-	switch nilState(env.Resolve(x)) {
+	rx := env.Resolve(x)
+	st := nilState(rx)
+	if st == -1 {
+		if isNil, known := env.nils[rx]; known {
+			st = 0
+			if isNil {
+				st = 1
+			}
+		}
+	}
+	switch st {
 	case 1:
 		return ((b.Op == token.EQL) != neg), true
 	case 0:
